@@ -24,6 +24,7 @@ Definition val_eqb (a b : val) : bool :=
   | VHost x, VHost y => host_eqb x y
   | VAddr i x, VAddr j y => (i =? j) && host_eqb x y
   | VSock i x p, VSock j y q => (i =? j) && host_eqb x y && (p =? q)
+  | VList x, VList y => list_eqb (fun a b => (fst a =? fst b) && host_eqb (snd a) (snd b)) x y
   | _, _ => false
   end.
 Definition ires_eqb (a b : ires) : bool :=
@@ -51,7 +52,7 @@ Definition err_code (e : perr) : N :=
   match e with
   | EIsd => 1 | EAsn => 2 | EIsdAsn => 3 | EService => 4 | EHostAddr => 5 | EScion => 6
   | EScionV4 => 7 | EScionV6 => 8 | EScionSvc => 9 | ESocket => 10 | ESocketV4 => 11
-  | ESocketV6 => 12 | ESocketSvc => 13 | ESvcStr => 20
+  | ESocketV6 => 12 | ESocketSvc => 13 | ESvcStr => 20 | ETxt c => 30 + c
   end.
 Definition enc_res (r : res val) : ires :=
   match r with Ok v => ROk v | Err e => RErr (err_code e) | Panic _ => RPanic end.
@@ -64,19 +65,25 @@ Definition verdict (c : tcase) : N :=
   (* model vs implementation: FromStr result, Display of the parsed value, Display of the given value *)
   let mis_parse := negb (ires_eqb model (t_res c)) in
   let mis_show := match t_res c with
-                  | ROk v => negb (ostr_eqb (display_kind O k v) (t_show c))
+                  | ROk v => negb (k =? K_TXT) && negb (ostr_eqb (display_kind O k v) (t_show c))
                   | _ => false
                   end in
   let mis_disp := match t_val c with
                   | Some v => negb (ostr_eqb (display_kind O k v) (Some s))
                   | None => false
                   end in
+  (* the hypotheses about std's IP text used by the theorems, on every observed std result *)
+  let std_bad := negb (forallb (fun '(t, h) => match h with
+                                               | H4 _ => forallb ip4ch t
+                                               | H6 _ => forallb ip6ch t && has_colon t
+                                               | HS _ => false end) (t_ip c))
+              || negb (utf8_ok s) in
   (* property oracles on the implementation's output *)
   let panicked := match t_res c with RPanic => true | _ => false end in
   let inexact := match t_res c with ROk v => negb (exact_ok O k s v) | _ => false end in
   let rt_fail := match t_val c with Some v => negb (ires_eqb (t_res c) (ROk v)) | None => false end in
   let known := match t_val c with Some v => rt_fail && negb (val_named k v) && val_wf k v | None => false end in
   let unknown := panicked || inexact || (rt_fail && negb known) in
-  (if mis_parse || mis_show || mis_disp then 1 else 0) + (if unknown then 2 else 0) + (if known then 16 else 0).
+  (if mis_parse || mis_show || mis_disp || std_bad then 1 else 0) + (if unknown then 2 else 0) + (if known then 16 else 0).
 
 Definition verdicts (cs : list tcase) : list N := map verdict cs.
